@@ -1014,6 +1014,18 @@ pub fn run_binary(args: &[&str], stdin_path: Option<&str>) -> Option<SubRun> {
     Some(SubRun { code, stdout: h1.join().unwrap_or_default(), stderr: h2.join().unwrap_or_default(), timed_out })
 }
 
+/// witnesses of defects beyond the parser (type check / operator construction)
+pub const COMPILE_WITNESSES: &[&str] = &[
+    "* | limit -9223372036854775808",
+    "* | limit -9223372036854775807",
+    "* | limit -1e18",
+    "* | limit 1e300",
+    "* | limit 9223372036854775807",
+    "* | json | count | limit -1e30",
+    "alpha |\u{3000}\tlimit -0",
+    "ıjsonıas/ |  ",
+];
+
 /* ---------- the check ---------- */
 
 
@@ -1204,7 +1216,7 @@ pub fn check(ctx: &mut Ctx) {
         }
         return;
     }
-    for (i, q) in parse::WITNESSES.iter().enumerate() {
+    for (i, q) in parse::WITNESSES.iter().chain(COMPILE_WITNESSES.iter()).enumerate() {
         if i % ctx.nshards == ctx.shard {
             handle(ctx, &mut rep, "witness", q, &mut rejected_pool);
         }
